@@ -666,7 +666,8 @@ pub fn run(cfg: &RunCfg) -> Report {
         "lenient classes (trailer section, bare-LF head) accept either an exact parse or a 4xx rejection".into(),
         "Upgrade/CONNECT requests are outside the domain (they turn the rest of the stream into their body by design)".into(),
     ];
-    runner::replay_pinned(&mut rep, cfg, &|ph, c| replay_strict(cfg, ph, c));
+    runner::replay_pinned(&mut rep, cfg, &replay);
+    runner::replay_regress(&mut rep, cfg, &replay);
     // While the per-connection codec context defect (C02 finding) is listed, HEAD requests are kept
     // out of these pipelines: a HEAD response framed with a later request's context makes the
     // response stream unparseable, which is C02's subject, not C01's.
@@ -679,11 +680,7 @@ pub fn run(cfg: &RunCfg) -> Report {
     rep
 }
 
-fn replay_strict(cfg: &RunCfg, _phase: &str, case: &serde_json::Value) -> Result<Verdict, String> {
+pub fn replay(cfg: &RunCfg, _phase: &str, case: &serde_json::Value) -> Result<Verdict, String> {
     let c: Case = runner::from_json(case)?;
-    Ok(run_case(cfg, &c, true))
-}
-
-pub fn replay(cfg: &RunCfg, phase: &str, case: &serde_json::Value) -> Result<Verdict, String> {
-    replay_strict(cfg, phase, case)
+    Ok(run_case(cfg, &c, cfg.strict))
 }
